@@ -26,6 +26,7 @@ type stackGen struct {
 	inLoop int
 	rets   int             // results of the function being generated
 	ro     map[string]bool // loop counters: never assigned by generated statements
+	top    bool            // generating top-level statements of an Eval snippet: no return
 	kinds  map[string]int
 }
 
@@ -135,6 +136,123 @@ func (s *stackGen) retStmt(ind int, vars []string) {
 			s.line(ind, "return %s, %s, \"r\"", np(s.expr(vars, 1)), s.atom(vars))
 		}
 	}
+}
+
+// blankForm returns one blank assignment "_ = e" / "_, _ = e1, e2" / "a, _ := f()" whose right-hand side is a
+// real call (1 and 2 results), a builtin (len, append, copy as a value), a conversion (int, float64, string,
+// []byte, uint8, the named type Celsius), a method call, an index / field / map read, arithmetic or a
+// function literal.  Every such statement must leave the operand stack as it found it; the values it
+// discards must never reach a caller.  decl = names it declares (int32 in the reference).
+func (s *stackGen) blankForm(vars []string) (stmt []string, decl []string) {
+	a := s.atom(vars)
+	switch s.r.intn(26) {
+	case 0:
+		return []string{fmt.Sprintf("_ = one(%s)", a)}, nil
+	case 1:
+		return []string{fmt.Sprintf("_, _ = pair(%s, 1)", a)}, nil
+	case 2:
+		v := s.fresh("ba")
+		return []string{fmt.Sprintf("%s, _ := pair(%s, 2)", v, a), "_ = " + v}, []string{v}
+	case 3:
+		v := s.fresh("bb")
+		return []string{fmt.Sprintf("_, %s := pair(3, %s)", v, a), "_ = " + v}, []string{v}
+	case 4:
+		return []string{"_ = len(gxs)"}, nil
+	case 5:
+		return []string{"_ = len(gstr)"}, nil
+	case 6:
+		return []string{fmt.Sprintf("_ = len(mk(%s))", a)}, nil
+	case 7:
+		return []string{fmt.Sprintf("_ = append(gxs, %s)", a)}, nil
+	case 8:
+		return []string{"_ = copy(make([]int, 2), gxs)"}, nil
+	case 9:
+		return []string{"_ = int(gf)"}, nil
+	case 10:
+		return []string{fmt.Sprintf("_ = float64(%s)", a)}, nil
+	case 11:
+		return []string{"_ = string([]byte(gstr))"}, nil
+	case 12:
+		return []string{"_ = []byte(gstr)"}, nil
+	case 13:
+		return []string{fmt.Sprintf("_ = uint8(%s)", a)}, nil
+	case 14:
+		return []string{"_ = Celsius(gf)"}, nil
+	case 15:
+		return []string{fmt.Sprintf("_ = gt.add(%d)", s.r.intn(3))}, nil
+	case 16:
+		return []string{"_ = gt.v"}, nil
+	case 17:
+		return []string{fmt.Sprintf("_ = gxs[%d]", s.r.intn(3))}, nil
+	case 18:
+		return []string{"_ = gm[\"k\"]"}, nil
+	case 19:
+		ok := s.fresh("ok")
+		return []string{fmt.Sprintf("_, %s := gm[\"k\"]", ok), "_ = " + ok}, nil
+	case 20:
+		return []string{fmt.Sprintf("_ = %s + one(%s)*2", a, a)}, nil
+	case 21:
+		return []string{"_ = func(x int) int { return one(x) }"}, nil
+	case 22:
+		return []string{fmt.Sprintf("_, _ = one(%s), len(gxs)", a)}, nil
+	case 23:
+		return []string{fmt.Sprintf("_, _ = float64(%s), string([]byte(gstr))", a)}, nil
+	case 24:
+		return []string{"_ = Celsius(float64(len(gstr)))"}, nil
+	default:
+		return []string{fmt.Sprintf("_ = int(float64(%s) * gf)", a)}, nil
+	}
+}
+
+func (s *stackGen) blank(ind int, vars []string) []string {
+	st, decl := s.blankForm(vars)
+	for _, l := range st {
+		s.line(ind, "%s", l)
+	}
+	s.kinds["blank assignment"]++
+	return append(vars, decl...)
+}
+
+// blankLoop: blank assignments in a loop of 60 iterations (a residual operand per iteration would grow the
+// stack) with an early exit near the end, and blank assignments as for-init / if-init statements.
+func (s *stackGen) blankLoop(ind int, vars []string, allowReturn bool) {
+	i := s.fresh("i")
+	if s.r.chance(50) {
+		st, _ := s.blankForm(nil)
+		for len(st) != 1 { // a declaring form cannot be an init statement
+			st, _ = s.blankForm(nil)
+		}
+		s.line(ind, "%s := 0", i)
+		s.line(ind, "for %s; %s < 60; %s++ {", st[0], i, i)
+		s.kinds["blank assignment as for-init / if-init"]++
+	} else {
+		s.line(ind, "for %s := 0; %s < 60; %s++ {", i, i, i)
+	}
+	s.ro[i] = true
+	inner := append(append([]string{}, vars...), i)
+	for k := 0; k < 1+s.r.intn(3); k++ {
+		inner = s.blank(ind+1, inner)
+	}
+	if s.r.chance(50) {
+		st, _ := s.blankForm(nil)
+		for len(st) != 1 {
+			st, _ = s.blankForm(nil)
+		}
+		s.line(ind+1, "if %s; %s == %d {", st[0], i, 50+s.r.intn(9))
+		s.kinds["blank assignment as for-init / if-init"]++
+	} else {
+		s.line(ind+1, "if %s == %d {", i, 50+s.r.intn(9))
+	}
+	s.line(ind+2, "fmt.Println(\"bl\", %s)", i)
+	if allowReturn && s.r.chance(60) {
+		inner = s.blank(ind+2, inner)
+		s.retStmt(ind+2, inner)
+	} else {
+		s.line(ind+2, "break")
+	}
+	s.line(ind+1, "}")
+	s.line(ind, "}")
+	s.kinds["blank assignments in a 60-iteration loop"]++
 }
 
 // literal emits a function literal INSIDE the function being generated: 0, 1 or 2 results (whatever the
@@ -442,9 +560,13 @@ func (s *stackGen) stmts(ind, depth, n int, vars []string) []string {
 				s.line(ind, "fmt.Println(vsum(%s), vsum(%s, %s), vsum(1, mk(%s)...))", s.atom(vars), s.atom(vars), s.atom(vars), s.atom(vars))
 			}
 			s.kinds["literal / container statements"]++
-		case x < 87:
+		case x < 85:
+			vars = s.blank(ind, vars)
+		case x < 86 && depth > 0:
+			s.blankLoop(ind, vars, !s.top)
+		case x < 89:
 			vars = s.literal(ind, vars)
-		case x < 90 && len(vars) > 0:
+		case x < 91 && len(vars) > 0:
 			s.line(ind, "fmt.Println(\"s\", %s)", strings.Join(vars[max0(len(vars)-4):], ", "))
 		default:
 			if depth > 0 {
@@ -485,6 +607,13 @@ func (t *T) two(a int) (int, int) {
 var gt = &T{v: 3, s: "g"}
 
 var calls int
+
+type Celsius float64
+
+var gxs = []int{4, 5, 6}
+var gstr = "hey"
+var gm = map[string]int{"k": 1}
+var gf = 2.5
 
 func one(p int) int {
 	calls++
@@ -590,6 +719,15 @@ func genStackProgramK(r *rng, nf int, kinds map[string]int) string {
 		s.rets = f.rets
 		s.line(0, "func %s(%s)%s {", f.name, strings.Join(ps, ", "), rs)
 		vars = s.stmts(1, 3, 3+r.intn(4), vars)
+		if r.chance(70) { // blank assignments right before the final return: the caller must get the declared results
+			vars = s.blank(1, vars)
+			if r.chance(40) {
+				vars = s.blank(1, vars)
+			}
+		}
+		if r.chance(25) {
+			s.blankLoop(1, vars, true)
+		}
 		s.line(1, "fmt.Println(\"%s done\", %s)", f.name, strings.Join(vars[max0(len(vars)-3):], ", "))
 		s.retStmt(1, vars)
 		s.line(0, "}\n")
@@ -660,6 +798,7 @@ func genStatementSnippet(r *rng) string {
 	s := &stackGen{r: r, sb: &sb, kinds: map[string]int{}, ro: map[string]bool{}}
 	sb.WriteString("import \"fmt\"\n")
 	sb.WriteString("type T struct {\n\tv int\n\ts string\n}\nfunc (t *T) add(d int) int {\n\tt.v += d\n\treturn t.v\n}\nfunc (t *T) two(a int) (int, int) {\n\treturn a + t.v, a - t.v\n}\n")
+	sb.WriteString("type Celsius float64\nvar gxs = []int{4, 5, 6}\nvar gstr = \"hey\"\nvar gm = map[string]int{\"k\": 1}\nvar gf = 2.5\n")
 	sb.WriteString("var gt = &T{v: 3, s: \"g\"}\nvar calls int\nfunc one(p int) int {\n\tcalls++\n\treturn p\n}\nfunc isPos(p int) bool {\n\treturn p > 0\n}\n")
 	sb.WriteString("func pair(a int, b int) (int, int) {\n\treturn b, a\n}\nfunc triple(a int) (int, int, string) {\n\treturn a, a * 2, \"t\"\n}\n")
 	sb.WriteString("func vsum(base int, xs ...int) int {\n\tfor _, x := range xs {\n\t\tbase += x\n\t}\n\treturn base\n}\nfunc mk(n int) []int {\n\treturn []int{n, n + 1, n + 2}\n}\n")
@@ -668,6 +807,10 @@ func genStatementSnippet(r *rng) string {
 	s.rets = 1
 	s.line(0, "func body(p0 int) int {")
 	vars := s.stmts(1, 3, 3+r.intn(4), []string{"p0"})
+	vars = s.blank(1, vars)
+	if r.chance(50) {
+		s.blankLoop(1, vars, true)
+	}
 	s.retStmt(1, vars)
 	s.line(0, "}")
 	// top-level statements of the snippet (Eval runs them): only loops may hold exits
@@ -675,7 +818,14 @@ func genStatementSnippet(r *rng) string {
 	s.line(0, "w := 5")
 	top := []string{"w"}
 	for k := 0; k < 2+r.intn(4); k++ {
-		switch r.intn(6) {
+		switch r.intn(9) {
+		case 6, 7: // blank assignments at the top level of the snippet: Eval must return no residual value
+			s.top = true
+			top = s.blank(0, top)
+			top = s.blank(0, top)
+		case 8:
+			s.top = true
+			s.blankLoop(0, top, false)
 		case 0:
 			s.line(0, "body(%s)", s.atom(top))
 		case 1:
